@@ -50,3 +50,10 @@ End C10.
 Print Assumptions C10_coh_dev.
 Print Assumptions C10_phase_error_ge_magnitude_error.
 Print Assumptions C10_phase_error_le_half_pi_magnitude_error.
+Print Assumptions C10_Gxx_dev.
+Print Assumptions C10_Gxy_dev.
+Print Assumptions C10_Hxy_dev.
+Print Assumptions C10_dev_is_estimate_times_error.
+Print Assumptions C10_errors_scale_as_inv_sqrt_n.
+Print Assumptions C10_deg_form.
+Print Assumptions C10_errors_vanish_at_full_coherence.
